@@ -45,6 +45,11 @@ impl Config {
                 1 => AttributesOption::GenerateCrc32,
                 _ => AttributesOption::GenerateFull,
             });
+        // attributes_option() switches sector checksums on as a side effect: to get the configuration the
+        // axes name (attributes WITHOUT sector checksums), the checksum option has to be given after it
+        if !self.crc && self.attrs != 0 {
+            b = b.generate_crcs(false);
+        }
         if self.tcomp {
             b = b.compress_tables(true);
         }
